@@ -38,12 +38,29 @@ func init() {
 
 // anyExpr draws from every generator of the harness.
 func anyExpr(g *xgen.G, env *xgen.Env) xref.Expr {
-	switch g.Intn(16) {
+	switch g.Intn(18) {
 	case 11:
 		return g.StackedPath(env)
-	case 12:
-		// a scalar expression over a stacked-predicate operand
-		return xref.Bin{Op: g.Pick("=", "!=", "<", "+", "and"), L: g.StackedPath(env), R: []xref.Expr{xref.Str{V: g.Pick("10", "x", "")}, xref.Num{Lex: "1"}, g.RelFlat(env.Names)}[g.Intn(3)]}
+	case 12, 16, 17:
+		// a scalar expression over stacked-predicate operands
+		// (stateful operands on either side: a Clone that shares one of them shows on the second use)
+		operand := func() xref.Expr {
+			switch g.Intn(6) {
+			case 0:
+				return xref.Str{V: g.Pick("10", "x", "")}
+			case 1:
+				return xref.Num{Lex: g.Pick("1", "3", "10")}
+			case 2:
+				return g.RelFlat(env.Names)
+			case 3:
+				return g.FilterStartPath(env)
+			case 4:
+				return xref.Filter{X: xref.Group{X: g.StackedPath(env)}, Preds: []xref.Expr{xref.Call{Name: "last"}}}
+			default:
+				return g.StackedPath(env)
+			}
+		}
+		return xref.Bin{Op: g.Pick("=", "!=", "<", ">=", "+", "-", "and", "or", "|"), L: operand(), R: operand()}
 	case 13:
 		return g.FilterStartPath(env)
 	case 14, 15:
